@@ -68,6 +68,13 @@ def run(tier, seed):
         v.add_tlc(rt)
         v.add_report({"evaluations": threads * per, "nontrivial": summ["nontrivial"], "samples": summ["samples"], "mismatches": mism},
                      "M3:Trace_C19/run%d" % k, traces=1)
+    # "the thread-safe and single-thread builds give identical answers to identical queries", over long single-threaded
+    # histories (tag switches, rule additions, reloads, cache discards): the thread-safe build is driven through the
+    # histories of C06 and validated against the same specification (Trace_C06)
+    from checks import enginecommon
+    nruns, nops = (1, 500) if tier == "quick" else (4, 3000)
+    enginecommon.longhist_stage(v, wd, seed, "blocker", nruns, nops, sync=True)
+    enginecommon.longhist_stage(v, wd, seed, "engine", nruns, nops, sync=True)
     vlib.require(v.violations or v.cov["distinct_nontrivial"] > 100, "almost no lock hand-overs between threads: the runs were effectively sequential")
     v.assumptions += ["real schedules are sampled (free-running threads released by a barrier), only the specification's interleavings are exhaustive",
                       "a run that does not finish within 60 s is recorded as a deadlock",
